@@ -17,6 +17,8 @@ structure NodeRec where
   nel : Nat
   eqc : Nat
   idk : Nat
+  txt : Nat
+  lay : Nat
   deriving Inhabited
 
 def jNat (j : Json) : Except String Nat := j.getNat?
@@ -24,23 +26,24 @@ def jNats (j : Json) : Except String (List Nat) := do (← j.getArr?).toList.map
 
 def jNode (j : Json) : Except String (Nat × NodeRec) := do
   let a ← j.getArr?
-  if h : a.size = 10 then
+  if h : a.size = 12 then
     let parent ← (match a[3] with
       | .null => pure none
       | p => do pure (some (← jNat p)) : Except String (Option Nat))
     return (← jNat a[0], ⟨← jNat a[1], ← jNat a[2], parent, ← jNats a[4], ← a[5].getBool?, ← a[6].getBool?,
-      ← jNat a[7], ← jNat a[8], ← jNat a[9]⟩)
+      ← jNat a[7], ← jNat a[8], ← jNat a[9], ← jNat a[10], ← jNat a[11]⟩)
   else throw "node"
 
 def jTree (j : Json) : Except String Tree := do
   let root ← jNat (← j.getObjVal? "root")
   let nodes ← (← (← j.getObjVal? "nodes").getArr?).toList.mapM jNode
   let m : Std.HashMap Nat NodeRec := nodes.foldl (fun m (k, v) => m.insert k v) {}
-  let get := fun (i : Nat) => m.getD i ⟨0, 0, none, [], false, false, 0, 0, 0⟩
+  let get := fun (i : Nat) => m.getD i ⟨0, 0, none, [], false, false, 0, 0, 0, 0, 0⟩
   return { root := root, size := nodes.length + 1
            cls := fun i => (get i).cls, ty := fun i => (get i).ty, parent := fun i => (get i).parent,
            kids := fun i => (get i).kids, ignored := fun i => (get i).ignored, updatable := fun i => (get i).updatable,
-           nel := fun i => (get i).nel, eqc := fun i => (get i).eqc, idk := fun i => (get i).idk }
+           nel := fun i => (get i).nel, eqc := fun i => (get i).eqc, idk := fun i => (get i).idk,
+           txt := fun i => (get i).txt, lay := fun i => (get i).lay }
 
 def jPair (j : Json) : Except String (Nat × Nat) := do
   let a ← j.getArr?
@@ -60,8 +63,33 @@ def sortStrs (l : List String) : List String := (l.toArray.qsort (· < ·)).toLi
 
 def nodupNat (l : List Nat) : Bool := l.eraseDups.length == l.length
 
+def jOptNat (j : Json) : Except String (Option Nat) :=
+  match j with
+  | .null => pure none
+  | p => do pure (some (← jNat p))
+
+def jWalk (j : Json) : Except String Wrapper.Walk := do
+  (← j.getArr?).toList.mapM fun e => do
+    let a ← e.getArr?
+    if h : a.size = 3 then pure (⟨← jNat a[0], ← jOptNat a[1], ← jOptNat a[2]⟩ : Wrapper.WNode) else throw "wnode"
+
+def b01 (b : Bool) : String := if b then "1" else "0"
+
+/-- the `diff()` wrapper: which trees get copied, are the distiller's trees parent-consistent, how many input objects
+    keep a cached hash (inputs come in without hashes; the distiller is assumed to hash everything it sees) -/
+def handleWrapper (j : Json) : Except String String := do
+  let sw ← jWalk (← j.getObjVal? "sw")
+  let tw ← jWalk (← j.getObjVal? "tw")
+  let hasM ← (← j.getObjVal? "matchings").getBool?
+  let r := Wrapper.runDiff SqlglotModel.Generated.C20.wrapperPolicy sw tw (· + 1000000) (· + 2000000) hasM
+    (fun _ => true) (fun _ => false)
+  let inputs := (Wrapper.objs sw ++ Wrapper.objs tw).eraseDups
+  let stale := (inputs.filter r.hashAfter).length
+  return s!"W copyS={b01 r.copied.1} copyT={b01 r.copied.2} consS={b01 (Wrapper.consistentB r.seenS)} consT={b01 (Wrapper.consistentB r.seenT)} stale={stale}"
+
 def handle (line : String) : Except String String := do
   let j ← Json.parse line
+  if (j.getObjVal? "op").toOption == some (Json.str "wrapper") then return (← handleWrapper j)
   let S ← jTree (← j.getObjVal? "src")
   let T ← jTree (← j.getObjVal? "tgt")
   let fj ← jNat (← j.getObjVal? "f")
@@ -75,11 +103,13 @@ def handle (line : String) : Except String String := do
   let dice := fun (s t : Nat) => dm.getD (s, t) 0
   -- input well-formedness the theorems assume (diff() guarantees it by copying shared nodes)
   if !(nodupNat S.bfs && nodupNat T.bfs) then return "bad-input bfs"
+  if !(S.wf && T.wf) then return "bad-input wf"
   if !(nodupNat (pre.map (·.1)) && nodupNat (pre.map (·.2))) then return "bad-input pre"
   if !(pre.all fun p => S.index.contains p.1 && T.index.contains p.2) then return "bad-input pre-index"
   let P : Params := { f := fj, t := tj, hi := SqlglotModel.Generated.C20.thrHi,
                       lo := SqlglotModel.Generated.C20.thrLo, minLeaves := SqlglotModel.Generated.C20.minLeaves,
-                      cmpIdents := SqlglotModel.Generated.C20.comparesIgnoredLeaves }
+                      cmpIdents := SqlglotModel.Generated.C20.comparesIgnoredLeaves,
+                      countPre := SqlglotModel.Generated.C20.countsPrematchedLeaves }
   let r := diffTrees P S T dice pre deltaOnly
   return "M " ++ " ".intercalate (sortStrs (r.matching.map showPair)) ++ " | E " ++
     " ".intercalate (sortStrs (r.edits.map showEdit))
